@@ -359,7 +359,8 @@ def c09(lines, out):
         if t[0] in ('reg_fd', 'reg_tmr'):
             kd = t[0][4:]; key = t[2][1:] if kd == 'fd' else t[2]
             if res == '0':
-                if key in S(t[1])[kd]:
+                # a one-shot source leaves the set when it fires, which this oracle cannot see for low-priority events
+                if key in S(t[1])[kd] and S(t[1])[kd][key] != 'o':
                     v.append(('dup_key', '%s succeeded although the key is registered' % r.op))
                 S(t[1])[kd][key] = 'o' if 'o' in t[3] else '-'
             elif key in S(t[1])[kd] and res not in ('-17', '-11', '-13', '-1', '-22'):
@@ -370,7 +371,7 @@ def c09(lines, out):
                 if key not in S(t[1])[kd]:
                     v.append(('absent_key', '%s succeeded although the key is absent' % r.op))
                 S(t[1])[kd].pop(key, None)
-            elif key in S(t[1])[kd] and res not in ('-11', '-13', '-1'):
+            elif key in S(t[1])[kd] and S(t[1])[kd][key] != 'o' and res not in ('-11', '-13', '-1'):
                 v.append(('present_key', '%s on a present key failed with %s' % (r.op, res)))
         if t[0] == 'sub' and res == '0': S(t[1])['sub'][t[2]] = t[4]
         if t[0] == 'unsub' and res == '0':
@@ -390,7 +391,7 @@ def c09(lines, out):
             s = S(t[1])
             exp = len(s['fd']) + len(s['tmr']) + len(s['sub'])
             # one-shot subscriptions may have been consumed: accept the range
-            lo = exp - sum(1 for x in s['sub'].values() if x == '1')
+            lo = exp - sum(1 for x in s['sub'].values() if x == '1') - sum(1 for k in ('fd', 'tmr') for x in s[k].values() if x == 'o')
             if not (lo <= int(res) <= exp):
                 v.append(('count', '%s returned %s, the registered sets hold %d' % (r.op, res, exp)))
     return v
